@@ -13,7 +13,8 @@ Require Import List Arith NArith Lia Bool.
 Require Import UFLV.Props.C19_dispatch.
 Import ListNotations.
 
-Inductive kind := MF | TR.
+(* MultiFunction subclasses, Transformer subclasses, plain functions passed to map_expr_dag(s) *)
+Inductive kind := MF | TR | FN.
 Record alg := mkalg { a_id : nat; a_kind : kind; a_has : list N }.
 
 Lemma alg_eq_dec : forall a b : alg, {a = b} + {a <> b}.
@@ -206,11 +207,9 @@ Theorem C20_history_refuted : forall pol k, validate_len (pol k) = false ->
   spec_outputs (w_hist k) (reg w_st) = [Some (Some 1%N)].
 Proof.
   intros pol k Hv. repeat split; try (intros a t H; discriminate).
-  destruct k.
-  - destruct (pol MF) as [v l] eqn:E; simpl in Hv; subst v.
-    cbv. rewrite !E. destruct l; reflexivity.
-  - destruct (pol TR) as [v l] eqn:E; simpl in Hv; subst v.
-    cbv. rewrite !E. destruct l; reflexivity.
+  destruct k;
+    match type of Hv with context [pol ?K0] => destruct (pol K0) as [v l] eqn:E end;
+    simpl in Hv; subst v; cbv; rewrite !E; destruct l; reflexivity.
 Qed.
 
 (* a policy that computes tables over the import-time snapshot fails even when the registration
@@ -222,11 +221,9 @@ Theorem C20_history_refuted_snapshot : forall pol k, live_registry (pol k) = fal
   spec_outputs (w_hist2 k) (reg w_st) = [Some (Some 1%N)].
 Proof.
   intros pol k Hl. split; [|reflexivity].
-  destruct k.
-  - destruct (pol MF) as [v l] eqn:E; simpl in Hl; subst l.
-    cbv. rewrite !E. reflexivity.
-  - destruct (pol TR) as [v l] eqn:E; simpl in Hl; subst l.
-    cbv. rewrite !E. reflexivity.
+  destruct k;
+    match type of Hl with context [pol ?K0] => destruct (pol K0) as [v l] eqn:E end;
+    simpl in Hl; subst l; cbv; rewrite !E; reflexivity.
 Qed.
 
 Print Assumptions C20_history.
